@@ -213,6 +213,9 @@ def safe_oracle(check, case):
 # workers (run inside forked processes)
 
 def _limit_memory():
+    if os.environ.get('PPV_DEBUG_HANG'):
+        import faulthandler
+        faulthandler.dump_traceback_later(int(os.environ['PPV_DEBUG_HANG']), repeat=False, file=open('/tmp/ppv-hang-%d.txt' % os.getpid(), 'w'))
     try:
         import resource
         lim = int(os.environ.get('PPV_MEM_GB', '6')) << 30
@@ -276,6 +279,9 @@ def run_hypothesis(check, tier, hseed, max_examples, st, shrink_budget):
     def prop(case):
         if state['harness'] is not None:
             raise _Violation('harness')
+        if state['first'] is not None and time.monotonic() - state['first'] > shrink_budget \
+                and canonical(case) != state['best_key']:
+            return      # shrink budget used up: only the current best is re-run (oracles can be expensive)
         try:
             res = safe_oracle(check, case)
         except HarnessError as e:
